@@ -92,6 +92,20 @@ def gen_cases(ctx):
         cases.append('esc ' + hexs(s))
         room = rng.randrange(0, 6 * ln + 2)
         cases.append('escs %d %s' % (room, hexs(s)))
+    # values streamed through the filters in several pieces (the 128-byte filter buffer is the case split)
+    edge = [0, 1, 2, 126, 127, 128, 129, 130, 255, 256, 257, 300]
+    for op in ('esc', 'uenc', 'benc'):
+        for a in edge:
+            for b in edge:
+                tot = a + b + rng.choice([0, 1, 5, 128, 200])
+                s = bytes(rng.choice(SPECIAL + b'abc \x00\xff%+') for _ in range(tot))
+                cases.append('pcs %s %d,%d %s' % (op, a, b, hexs(s)))
+        for _ in range(ctx.scale(300, 5000)):
+            k = rng.randrange(1, 6)
+            cuts = [rng.choice(edge + [3, 17, 64]) for _ in range(k)]
+            tot = sum(cuts) + rng.choice([0, 1, 127, 128, 129])
+            s = bytes(rng.choice(SPECIAL + b'abc \x00\xff%+') for _ in range(min(tot, 1500)))
+            cases.append('pcs %s %s %s' % (op, ','.join(map(str, cuts)), hexs(s)))
     # form widgets: every value / id / label / message slot of every widget kind, both doctypes and both list layouts
     payloads = [b'', b'<', b'>', b'&', b'"', b"'", b'<script>alert(1)</script>', b'" onmouseover="x', b"' x='", b'&amp;', b'&#39;<',
                 b'a&b<c>d"e\'f', b'\x00<\xff>', b'</textarea><script>', b'</option></select><img src=x>', b'plain text']
@@ -161,6 +175,17 @@ def oracle(case, out):
             return ('escape-leaves-markup', 'escaped text contains one of < > " \'')
         if py_unescape(r) != s:
             return ('escape-not-invertible', 'escaped text does not un-escape to the input (bare & or wrong entity)')
+    elif op == 'pcs':
+        s, r = unhex(c[3]), unhex(o[1])
+        if c[1] == 'esc':
+            if any(ch in r for ch in b'<>"\'') or py_unescape(r) != s:
+                return ('escape-filter-pieces', 'escape filter over a value streamed in pieces %s: output does not un-escape to the value' % c[2])
+        elif c[1] == 'uenc':
+            if urllib.parse.unquote_to_bytes(r) != s or any(ch not in UNRES and ch not in b'%' for ch in r):
+                return ('urlencode-filter-pieces', 'urlencode filter over a value streamed in pieces %s: output does not decode to the value' % c[2])
+        else:
+            if any(ch not in B64 for ch in r) or len(r) != (len(s) * 4 + 2) // 3 or base64.urlsafe_b64decode(r + b'=' * (-len(r) % 4)) != s:
+                return ('base64-filter-pieces', 'base64_urlencode filter over a value streamed in pieces %s: output does not decode to the value' % c[2])
     elif op == 'form':
         if o[1] in ('NO-PLACEHOLDER', 'STRUCTURE-DIFFERS'):
             return ('form-widget-structure-' + c[1], 'rendering the widget with this value changes the markup around the value slot (value not confined to its slot): ' + out[:200])
@@ -254,6 +279,8 @@ def classify(case, out):
     n = 0 if c[-1] == '-' else len(c[-1]) // 2
     if c[0] in ('esz', 'dsz'):
         return c[0]
+    if c[0] in ('pcs', 'form'):
+        return c[0] + ':' + c[1]
     b = 'len0' if n == 0 else 'len1-2' if n <= 2 else 'len3' if n == 3 else 'len4-64' if n <= 64 else 'len65-1024' if n <= 1024 else 'len>1024'
     return c[0] + ':' + b + (':invalid' if 'invalid' in out else '')
 
